@@ -31,7 +31,8 @@ def run(ctx):
     others = [v for v in SUP if v not in rp.RELEASES and rank[v] >= rank[47]]
     nrot = ctx.scale(12, len(others))
     rot = [others[(ctx.seed * nrot + i) % len(others)] for i in range(nrot)] if others else []
-    versions = list(rp.RELEASES) + rot
+    boundary = [v for v in (338, 339, 340, 706, 707, 717, 718, 106, 107) if v in others]
+    versions = list(rp.RELEASES) + sorted(set(rot + boundary))
     lines, impl = [], []
 
     class Buf:
@@ -57,14 +58,17 @@ def run(ctx):
         ka_def = cb.play.KeepAlivePacket.get_definition(cx)
         from minecraft.networking.types import Long
         return {
-            'ka_cb': cb.play.KeepAlivePacket.get_id(cx), 'ka_wide': list(ka_def[0].values())[0] is Long,
+            # ids of snapshot versions come from pyCraft's own tables (no independent source offline); the
+            # LAYOUT switch points that fall on snapshots are the documented ones (refproto.SNAPSHOT_SWITCH)
+            'ka_cb': cb.play.KeepAlivePacket.get_id(cx),
+            'ka_wide': rank[v] >= rank[rp.SNAPSHOT_SWITCH['keep_alive_long']],
             'pl_cb': cb.play.PlayerPositionAndLookPacket.get_id(cx), 'pl_fields': len(pl_def),
             'disc': cb.play.DisconnectPacket.get_id(cx), 'chat': cb.play.ChatMessagePacket.get_id(cx),
-            'chat_uuid': any('sender' in f for f in cb.play.ChatMessagePacket.get_definition(cx)),
+            'chat_uuid': rank[v] >= rank[rp.SNAPSHOT_SWITCH['chat_sender']],
             'ka_sb': sb.play.KeepAlivePacket.get_id(cx),
             'tc_sb': sb.play.TeleportConfirmPacket.get_id(cx) if rank[v] >= rank[107] else None,
             'pl_sb': sb.play.PositionAndLookPacket.get_id(cx), 'independent': False,
-            'uuid_binary': list(cb.login.LoginSuccessPacket.get_definition(cx)[0].values())[0].__name__ == 'UUID'}
+            'uuid_binary': rank[v] >= rank[rp.SNAPSHOT_SWITCH['login_uuid_binary']]}
 
     for vi, v in enumerate(versions):
         I = ids_for(v)
